@@ -28,10 +28,11 @@ Out(x) == [o |-> x.o, owner |-> x.owner, amt |-> T3(x.amt), kind |-> x.kind]
 Tx(t) == [id |-> t.id, type |-> t.type, auto |-> t.auto, signer |-> t.signer, sigok |-> t.sigok,
           ins |-> [i \in DOMAIN t.ins |-> In(t.ins[i])], outs |-> [i \in DOMAIN t.outs |-> Out(t.outs[i])],
           hops |-> [i \in DOMAIN t.hops |-> <<t.hops[i][1], t.hops[i][2]>>], pathok |-> t.pathok, edit |-> t.edit,
+          srcsize |-> t.src_size,
           inner |-> [known |-> t.inner.known, from0 |-> t.inner.from0,
                      hops |-> [i \in DOMAIN t.inner.hops |-> <<t.inner.hops[i][1], t.inner.hops[i][2]>>]]]
 Hdr(h) == [treasury |-> T3(h.treasury), graveyard |-> T3(h.graveyard), unpaid |-> T3(h.unpaid),
-           fees |-> T3(h.fees)]
+           fees |-> T3(h.fees), afpb |-> h.afpb, payout_atr |-> T3(h.payout_atr)]
 ObsUtxo(st) == {[o |-> x.o, owner |-> x.owner, amt |-> LimbNorm(T3(x.amt)), bh |-> x.bh, kind |-> x.kind]
                  : x \in {y \in Rng(st.utxo) : y.sp}}
 
@@ -84,6 +85,17 @@ BlockChecks(e, BB, UU) ==
         c13 == IF (adopted \/ wound_then_panic) /\ rooted
                THEN UNION {{Bad(e, "C13", v \o " in " \o x) : v \in atrv(x)} : x \in Rng(wound)}
                ELSE {}
+        \* the amount a rebroadcast output reappears with: value minus size of the carrying transaction times the smoothed fee per
+        \* byte of the parent block (no treasury premium in this block; single-slip rebroadcasts)
+        atrfee(t, x) == t.srcsize * BB[BB[x].parent].hdr.afpb
+        plain(t) == Len(t.ins) = 1 /\ Len(t.outs) = 1 /\ t.ins[1].kind # KBound
+        c13f == IF adopted /\ rooted
+                THEN UNION {{Bad(e, "C13", "rebroadcast-amount-not-value-minus-fee in " \o x)
+                               : t \in {u \in Rng(AtrTxs(BB[x].txs)) : plain(u) /\ u.srcsize > 0 /\ BB[x].parent # ""
+                                            /\ IsZero(BB[x].hdr.payout_atr) /\ u.srcsize < 100000 /\ BB[BB[x].parent].hdr.afpb < 10000
+                                            /\ ~LimbEq(LimbAdd(u.outs[1].amt, LimbOfNat(atrfee(u, x))), u.ins[1].amt)}}
+                           : x \in Rng(wound)}
+                ELSE {}
         c13b == IF adopted /\ rooted /\ \E x \in T.utxo : x.kind # KBound /\ x.bh + G < T.tiph
                       /\ x.o \in Names(InWin(UU[lab], T.tiph, G))
                 THEN {} ELSE {}
@@ -149,7 +161,7 @@ BlockChecks(e, BB, UU) ==
                           n == T3(e.hdr.needed)
                       IN ~(LimbIsSmall(n) /\ LimbToNat(n) + 1 >= ref /\ LimbToNat(n) <= ref + 1)
                 THEN {Bad(e, "C08", "requirement-differs-from-definition")} ELSE {}
-    IN c01 \cup c13 \cup c13r \cup c03 \cup c02 \cup c04 \cup c07 \cup c06 \cup pan \cup c08w \cup c08p \cup c08n \cup c08k
+    IN c01 \cup c13 \cup c13f \cup c13r \cup c03 \cup c02 \cup c04 \cup c07 \cup c06 \cup pan \cup c08w \cup c08p \cup c08n \cup c08k
 
 (* ---- pool (C14) and wallet (C19) checks on any observed state --------------------- *)
 PoolChecks(e, st, P, u, tiph) ==
